@@ -227,6 +227,15 @@ class TPCNRunner(BaseMCMCRunner):
         self.degrees_of_freedom = self.mode_stats.degrees_of_freedom
         self.inv_covs = self.mode_stats.inv_covariances
         self.chol_covs = self.mode_stats.chol_covariances
+        # The tpCN proposal is reversible with respect to its Student-t reference
+        # only in the unfolded space: wrapping (periodic) or folding (reflective)
+        # a proposal breaks detailed balance, because the proposal depends on the
+        # position relative to the mode mean and not only on the displacement.
+        # Proposals that leave the unit cube are therefore rejected for every
+        # coordinate, whatever its boundary type (the symmetric RWM proposal
+        # keeps wrapping and folding, which is exact there).
+        self.periodic = None
+        self.reflective = None
 
     def _initialize_sigmas(self) -> np.ndarray:
         return np.ones(self.n_clusters) * np.minimum(self.sigma_0, 0.99)
